@@ -273,6 +273,24 @@ def run(repo: Repo, chk: Check) -> None:
     chk.set_clause('C01.8')
     _lambda_rec(repo, chk)
 
+    # ---- 9 KECCAK / SHA3: the multi-rate padding (pad10*1) of the sponge, for EVERY number of bytes already in the block -----------------------
+    # a loop-free function of two small integers: interpreted for all 136 residues of the rate of Keccak-256 / SHA3-256 (exhaustive over its domain);
+    # the permutation and the digests themselves are numeric content and are not decided
+    chk.set_clause('C01.9')
+    mp = repo.func('pytezos.crypto.keccak.multirate_padding')
+    rate = 136
+    wrong = []
+    for used in range(rate):
+        rp = Interp(repo, max_depth=2).run_function(mp, [used, rate])
+        k = rate - used
+        want = [0x81] if k == 1 else [0x01] + [0] * (k - 2) + [0x80]
+        got = [list(p.value) if p.outcome == 'return' and isinstance(p.value, (list, tuple, bytes, bytearray)) else p.outcome for p in rp]
+        if got != [want]:
+            wrong.append({'bytes_in_block': used, 'padding': str(got)[:80], 'reference_length': k})
+    chk.ob('R-TEMPLATE', mp.qualname, not wrong, f'pad10*1 for every residue of the {rate}-byte rate', mp.loc, {'residues': rate, 'wrong': wrong[:3]},
+           what=f'multirate_padding differs from pad10*1 (0x01, zeros, 0x80; 0x81 when one byte is missing) for {len(wrong)} residue(s), e.g. {wrong[:1]}: KECCAK / SHA3 of '
+                'messages of those lengths are silently wrong')
+
 
 def _lambda_rec(repo: Repo, chk: Check) -> None:
     """LAMBDA_REC ty1 ty2 code pushes a lambda; when it is EXECuted on an argument the reference runs `code` on the stack
